@@ -1,17 +1,621 @@
-//! C17 — engine not implemented yet.
+//! C17 — debugger is transparent and never wedges the runtime.
+//! Core X3: a real cycle thread (two scan cycles with the statement hook of `DebugControl`)
+//! against a controller thread that runs a reactive command script; every interleaving at
+//! lock/condvar granularity within a deviation bound, for every script of a bounded alphabet.
 
 use crate::fw::*;
-use crate::iso::WorkerFn;
-use serde_json::Value;
+use crate::iso::{self, PoolCfg, WorkerFn};
+use crate::sched::Sched;
+use crate::x3;
+use serde_json::{json, Value};
+use std::sync::Arc;
+use std::time::{Duration, Instant};
+use trust_runtime::debug::{ControlAction, DebugBreakpoint, DebugControl, DebugStop, DebugStopReason, LogFragment, SourceLocation};
+use trust_runtime::harness::TestHarness;
+use trust_runtime::value::Duration as StDuration;
+use trust_runtime::verif_sync;
+use trust_runtime::Runtime;
 
-pub fn run(_ctx: &Ctx) -> EngineResult {
-    machinery("engine C17 not implemented")
+const HORIZON: u64 = 6000;
+const CYCLES: usize = 2;
+
+pub const PROGRAM: &str = r#"FUNCTION Inner : DINT
+VAR_INPUT v : DINT; END_VAR
+    Inner := v + 1;
+END_FUNCTION
+
+FUNCTION Outer : DINT
+VAR_INPUT v : DINT; END_VAR
+    Outer := Inner(v) * 2;
+    Outer := Outer + 1;
+END_FUNCTION
+
+FUNCTION_BLOCK Acc
+VAR_INPUT d : DINT; END_VAR
+VAR_OUTPUT total : DINT; END_VAR
+    total := total + d;
+END_FUNCTION_BLOCK
+
+CONFIGURATION Conf
+VAR_GLOBAL
+    g : DINT := 0; h : DINT := 0;
+END_VAR
+TASK T1 (INTERVAL := T#1ms, PRIORITY := 0);
+PROGRAM P1 WITH T1 : Main;
+PROGRAM P2 : Bg;
+END_CONFIGURATION
+
+PROGRAM Main
+VAR
+    i : DINT; acc : Acc; r : DINT;
+END_VAR
+    r := Outer(g);
+    FOR i := 1 TO 2 DO
+        g := g + i;
+    END_FOR;
+    acc(d := r);
+    h := acc.total;
+END_PROGRAM
+
+PROGRAM Bg
+    g := g + 100;
+END_PROGRAM
+"#;
+
+const BP_NEEDLES: &[&str] = &["r := Outer(g);", "Inner := v + 1;", "g := g + i;", "total := total + d;", "g := g + 100;"];
+
+fn build() -> Runtime {
+    TestHarness::from_source(PROGRAM).expect("C17 scenario program must compile").into_runtime()
 }
 
-pub fn check_case(_case: &Value) -> Vec<Violation> {
-    Vec::new()
+fn bp_location(rt: &Runtime, k: usize) -> SourceLocation {
+    let line = PROGRAM
+        .lines()
+        .position(|l| l.contains(BP_NEEDLES[k]))
+        .expect("needle") as u32;
+    rt.resolve_breakpoint_location(PROGRAM, 0, line, 0).expect("breakpoint location resolves")
+}
+
+fn run_cycles(rt: &mut Runtime) -> Vec<String> {
+    let mut res = Vec::new();
+    for c in 0..CYCLES {
+        rt.set_current_time(StDuration::from_millis(10 * (c as i64 + 1)));
+        res.push(match rt.execute_cycle() {
+            Ok(()) => "ok".to_string(),
+            Err(e) => format!("{e:?}"),
+        });
+    }
+    res
+}
+
+/// Reference observations of an undebugged (logpoint-only) sequential run:
+/// (final dump, cycle results, executed statement sequence as [start,end]).
+pub fn reference() -> Result<Value, String> {
+    // plain run without any debugger attached
+    let mut plain = build();
+    let plain_res = run_cycles(&mut plain);
+    let plain_dump = crate::dump::dump_runtime(&plain);
+    // run with a logpoint on every statement: yields the statement order without stopping
+    let mut rt = build();
+    let locs: Vec<SourceLocation> = rt.statement_locations(0).map(|l| l.to_vec()).unwrap_or_default();
+    if locs.is_empty() {
+        return Err("no statement locations registered for file 0".into());
+    }
+    let control = rt.enable_debug();
+    let bps: Vec<DebugBreakpoint> = locs
+        .iter()
+        .map(|l| {
+            let mut bp = DebugBreakpoint::new(*l);
+            bp.log_message = Some(vec![LogFragment::Text("s".into())]);
+            bp
+        })
+        .collect();
+    control.set_breakpoints_for_file(0, bps);
+    let res = run_cycles(&mut rt);
+    let logs = control.drain_logs();
+    // each hook call at location L logs once per logpoint overlapping L
+    let overlap = |l: &SourceLocation| locs.iter().filter(|b| l.start < b.end && b.start < l.end).count();
+    let mut seq: Vec<(u32, u32)> = Vec::new();
+    let mut i = 0;
+    while i < logs.len() {
+        let Some(l) = logs[i].location else { return Err("log without location".into()) };
+        let k = overlap(&l).max(1);
+        seq.push((l.start, l.end));
+        i += k;
+    }
+    let dump = crate::dump::dump_runtime(&rt);
+    if dump != plain_dump || res != plain_res {
+        return Err("logpoint run differs from plain run; cannot establish a reference".into());
+    }
+    if seq.len() < 10 {
+        return Err(format!("reference statement sequence too short: {}", seq.len()));
+    }
+    Ok(json!({"dump": dump, "results": res, "seq": seq}))
+}
+
+fn action_of(a: &str) -> Option<ControlAction> {
+    Some(match a {
+        "P" => ControlAction::Pause(None),
+        "P1" => ControlAction::Pause(Some(1)),
+        "P2" => ControlAction::Pause(Some(2)),
+        "C" => ControlAction::Continue,
+        "SI" => ControlAction::StepIn(None),
+        "SO" => ControlAction::StepOver(None),
+        "SU" => ControlAction::StepOut(None),
+        "SI1" => ControlAction::StepIn(Some(1)),
+        "SO1" => ControlAction::StepOver(Some(1)),
+        "SU1" => ControlAction::StepOut(Some(1)),
+        _ => return None,
+    })
+}
+
+struct Ctl<'a> {
+    sched: &'a Arc<Sched>,
+    control: DebugControl,
+    ct: usize,
+    stops: Vec<DebugStop>,
+    problems: Vec<(String, String)>,
+    /// pending step issued while parked: (kind, origin depth, origin location)
+    expect: Option<(String, u32, Option<(u32, u32)>)>,
+    ref_seq: Vec<(u32, u32)>,
+    parks_seen: u64,
+    resumes_while_parked: u64,
+    step_checks: u64,
+}
+
+impl Ctl<'_> {
+    fn problem(&mut self, clause: &str, what: String) {
+        if !self.problems.iter().any(|p| p.0 == clause) {
+            self.problems.push((clause.to_string(), what));
+        }
+    }
+
+    fn parked(&self) -> bool {
+        self.sched.is_blocked_on_cond(self.ct)
+    }
+
+    fn done(&self) -> bool {
+        self.sched.is_done(self.ct)
+    }
+
+    fn observe(&mut self) {
+        let new = self.control.drain_stops();
+        let parks = self.sched.cond_blocks(self.ct);
+        let first_new = new.first().cloned();
+        self.stops.extend(new);
+        if self.stops.len() as u64 != parks {
+            self.problem(
+                "stop-count",
+                format!("{} stop notifications for {} stops of the cycle thread", self.stops.len(), parks),
+            );
+        }
+        if let Some(s) = self.stops.iter().find(|s| s.location.is_none()) {
+            self.problem("stop-location", format!("stop notification without location: reason {:?}", s.reason));
+        }
+        self.parks_seen = self.parks_seen.max(parks);
+        if let (Some(stop), Some((kind, d0, origin))) = (first_new, self.expect.clone()) {
+            self.expect = None;
+            if stop.reason == DebugStopReason::Step && self.parked() {
+                self.step_checks += 1;
+                let d1 = self.control.last_call_depth();
+                let loc = stop.location.map(|l| (l.start, l.end));
+                match kind.as_str() {
+                    "over" | "out" => {
+                        if d1 > d0 {
+                            self.problem(
+                                &format!("step-{kind}-depth"),
+                                format!("step-{kind} issued at call depth {d0} stopped at call depth {d1} (location {loc:?})"),
+                            );
+                        }
+                    }
+                    _ => {
+                        if let (Some(o), Some(l)) = (origin, loc) {
+                            // two readings of "the very next statement": next statement executed at
+                            // all, or next statement of the same debug thread (stepping is
+                            // thread-scoped: task programs and background programs are threads)
+                            let bg_start = PROGRAM.find("PROGRAM Bg").unwrap_or(usize::MAX) as u32;
+                            let same_thread: Vec<(u32, u32)> = self
+                                .ref_seq
+                                .iter()
+                                .copied()
+                                .filter(|x| (x.0 >= bg_start) == (o.0 >= bg_start))
+                                .collect();
+                            let ok = self.ref_seq.windows(2).any(|w| w[0] == o && w[1] == l)
+                                || same_thread.windows(2).any(|w| w[0] == o && w[1] == l);
+                            if !ok {
+                                self.problem(
+                                    "step-in-next",
+                                    format!("step-in from statement {o:?} stopped at {l:?}, which never directly follows it in the undebugged statement order (neither globally nor within its task)"),
+                                );
+                            }
+                        }
+                    }
+                }
+            }
+        }
+    }
+
+    fn act(&mut self, a: &str, bps: &[SourceLocation]) {
+        if a == "W" {
+            for _ in 0..80 {
+                self.observe();
+                if self.parked() || self.done() {
+                    break;
+                }
+                verif_sync::yield_point("ctl.wait_stop");
+            }
+            return;
+        }
+        if a == "X" {
+            self.control.clear_breakpoints();
+            return;
+        }
+        if let Some(k) = a.strip_prefix('B').and_then(|k| k.parse::<usize>().ok()) {
+            self.control.set_breakpoints_for_file(0, vec![DebugBreakpoint::new(bps[k])]);
+            return;
+        }
+        let Some(action) = action_of(a) else { return };
+        self.observe();
+        let resume = !matches!(action, ControlAction::Pause(_));
+        let parked_before = self.parked();
+        let origin_depth = self.control.last_call_depth();
+        let origin_loc = self.stops.last().and_then(|s| s.location).map(|l| (l.start, l.end));
+        let _ = self.control.apply_action(action);
+        if resume && parked_before {
+            self.resumes_while_parked += 1;
+            if self.parked() {
+                self.problem("resume-lost", format!("{a} was issued while the cycle thread was stopped, but it stayed blocked"));
+            }
+            let kind = match action {
+                ControlAction::StepIn(_) => Some("in"),
+                ControlAction::StepOver(_) => Some("over"),
+                ControlAction::StepOut(_) => Some("out"),
+                _ => None,
+            };
+            self.expect = kind.map(|k| (k.to_string(), origin_depth, origin_loc));
+        } else if resume {
+            self.expect = None;
+        }
+    }
+}
+
+pub fn worker_exec(case: &Value) -> Value {
+    let script: Vec<String> = case["script"]
+        .as_array()
+        .map(|a| a.iter().map(|s| s.as_str().unwrap_or("").to_string()).collect())
+        .unwrap_or_default();
+    let ref_seq: Vec<(u32, u32)> = case["ref_seq"]
+        .as_array()
+        .map(|a| a.iter().map(|p| (p[0].as_u64().unwrap_or(0) as u32, p[1].as_u64().unwrap_or(0) as u32)).collect())
+        .unwrap_or_default();
+    x3::run_controlled(case, HORIZON, move |sched| {
+        let mut rt = build();
+        let bps: Vec<SourceLocation> = (0..BP_NEEDLES.len()).map(|k| bp_location(&rt, k)).collect();
+        let control = rt.enable_debug();
+        let handle = verif_sync::thread::spawn(move || {
+            let res = run_cycles(&mut rt);
+            (rt, res)
+        });
+        let mut ctl = Ctl {
+            sched,
+            control: control.clone(),
+            ct: 1,
+            stops: Vec::new(),
+            problems: Vec::new(),
+            expect: None,
+            ref_seq,
+            parks_seen: 0,
+            resumes_while_parked: 0,
+            step_checks: 0,
+        };
+        for a in &script {
+            ctl.act(a, &bps);
+            ctl.observe();
+        }
+        // drain phase: make sure the execution terminates
+        let mut finished = false;
+        for poll in 0..600 {
+            ctl.observe();
+            if ctl.done() {
+                finished = true;
+                break;
+            }
+            if poll == 0 {
+                control.clear_breakpoints();
+            }
+            if ctl.parked() {
+                ctl.act("C", &bps);
+            }
+            verif_sync::yield_point("ctl.drain");
+        }
+        if !finished {
+            ctl.problem(
+                "wedged",
+                format!(
+                    "cycle thread did not finish although breakpoints were cleared and Continue was issued at every stop (parked now: {})",
+                    ctl.parked()
+                ),
+            );
+            // cannot join a wedged thread: report from here
+            return json!({
+                "problems": ctl.problems, "finished": false, "stops": ctl.stops.len(), "parks": ctl.parks_seen,
+                "resumes_while_parked": ctl.resumes_while_parked, "step_checks": ctl.step_checks,
+            });
+        }
+        let (rt, res) = handle.join().expect("cycle thread panicked");
+        ctl.observe();
+        let dump = crate::dump::dump_runtime(&rt);
+        json!({
+            "problems": ctl.problems,
+            "finished": true,
+            "dump": dump,
+            "results": res,
+            "stops": ctl.stops.len(),
+            "stop_reasons": ctl.stops.iter().map(|s| format!("{:?}", s.reason)).collect::<Vec<_>>(),
+            "parks": ctl.parks_seen,
+            "resumes_while_parked": ctl.resumes_while_parked,
+            "step_checks": ctl.step_checks,
+        })
+    })
+}
+
+fn judge(reference: &Value, script: &[String], rec: &Value) -> Vec<Violation> {
+    let obs = &rec["obs"];
+    let mut out = Vec::new();
+    let tag = script_class(script);
+    for p in obs["problems"].as_array().cloned().unwrap_or_default() {
+        out.push(Violation {
+            signature: format!("C17/{}/{}", p[0].as_str().unwrap_or("?"), tag),
+            what: format!("script {:?}: {}", script, p[1].as_str().unwrap_or("")),
+            case: json!({"clause": p[0]}),
+        });
+    }
+    if obs["finished"].as_bool() == Some(true) {
+        if obs["results"] != reference["results"] {
+            out.push(Violation {
+                signature: format!("C17/transparency-result/{tag}"),
+                what: format!("script {:?}: cycle results {} differ from the undebugged run {}", script, obs["results"], reference["results"]),
+                case: json!({"clause": "transparency-result"}),
+            });
+        } else if obs["dump"] != reference["dump"] {
+            let a = obs["dump"].as_object().cloned().unwrap_or_default();
+            let b = reference["dump"].as_object().cloned().unwrap_or_default();
+            let diff: Vec<String> = b
+                .iter()
+                .filter(|(k, v)| a.get(*k) != Some(v))
+                .map(|(k, v)| format!("{k}: undebugged {v} vs debugged {}", a.get(k).unwrap_or(&Value::Null)))
+                .take(4)
+                .collect();
+            out.push(Violation {
+                signature: format!("C17/transparency-state/{tag}"),
+                what: format!("script {:?} (no writes): final state differs from the undebugged run: {}", script, diff.join("; ")),
+                case: json!({"clause": "transparency-state"}),
+            });
+        }
+    }
+    out
+}
+
+/// Signature component: the set of command kinds in the script (not their order or count).
+fn script_class(script: &[String]) -> String {
+    let mut kinds: Vec<&str> = script
+        .iter()
+        .map(|a| match a.as_str() {
+            "P" | "P1" | "P2" => "pause",
+            "C" => "continue",
+            "SI" | "SI1" => "step-in",
+            "SO" | "SO1" => "step-over",
+            "SU" | "SU1" => "step-out",
+            "X" => "clear",
+            "W" => "wait",
+            _ => "breakpoint",
+        })
+        .collect();
+    kinds.sort();
+    kinds.dedup();
+    kinds.join("+")
+}
+
+fn pool(threads: usize, deadline: Option<Instant>) -> PoolCfg {
+    PoolCfg {
+        worker: "c17_exec",
+        procs: threads,
+        rlimit_as: 0,
+        per_case: Duration::from_secs(60),
+        deadline,
+        env: vec![],
+        stack: 8 << 20,
+    }
+}
+
+fn scripts(tier: Tier) -> Vec<Vec<String>> {
+    let base: Vec<&str> = vec!["P", "P1", "P2", "C", "SI", "SO", "SU", "B0", "B1", "B2", "B3", "B4", "X", "W"];
+    let steps = ["SI", "SO", "SU"];
+    let mut out: Vec<Vec<String>> = Vec::new();
+    let mut push = |v: Vec<&str>| {
+        let s: Vec<String> = v.iter().map(|x| x.to_string()).collect();
+        if !out.contains(&s) {
+            out.push(s);
+        }
+    };
+    push(vec![]);
+    for a in &base {
+        push(vec![a]);
+    }
+    // stop somewhere, wait for the stop, then each resume kind (and a second one)
+    for b in ["B0", "B1", "B2", "B3", "B4", "P", "P1", "P2"] {
+        for s in steps.iter().chain(["C"].iter()) {
+            push(vec![b, "W", s]);
+        }
+    }
+    for b in ["B1", "B3", "B0"] {
+        for s1 in &steps {
+            for s2 in &steps {
+                push(vec![b, "W", s1, "W", s2]);
+            }
+        }
+    }
+    for a in &base {
+        for b in &base {
+            push(vec![a, b]);
+        }
+    }
+    if tier == Tier::Thorough {
+        for a in &base {
+            for b in &base {
+                for c in &base {
+                    push(vec![a, b, c]);
+                }
+            }
+        }
+        for b in ["B1", "B3"] {
+            for s in ["SI1", "SO1", "SU1"] {
+                push(vec![b, "W", s, "W", s]);
+            }
+        }
+    }
+    out
+}
+
+pub fn run(ctx: &Ctx) -> EngineResult {
+    quiet_panics();
+    let mut rep = Report::new("model_checking");
+    let reference = reference().map_err(|e| Machinery(format!("cannot establish the undebugged reference run: {e}")))?;
+    let all = scripts(ctx.tier);
+    let budget = ctx.tier.pick(45.0, 850.0);
+    let deadline = Instant::now() + Duration::from_secs_f64(budget);
+    let bound = ctx.tier.pick(1usize, 2usize);
+    let mut total_sched = 0u64;
+    let mut total_steps = 0u64;
+    let mut scripts_done = 0u64;
+    let mut scripts_capped = 0u64;
+    let mut stops_total = 0u64;
+    let mut resumes = 0u64;
+    let mut step_checks = 0u64;
+    let mut outcomes = std::collections::BTreeSet::new();
+    let mut exhaustive = true;
+    // run scripts concurrently: each exploration uses a slice of the worker processes
+    let lanes = 4usize;
+    let per_lane = (ctx.threads / lanes).max(1);
+    let results = crate::par::par_map(&all, lanes, 1 << 20, Some(deadline), |_, script| {
+        let cfg = pool(per_lane, Some(deadline));
+        let scenario = json!({"script": script, "ref_seq": reference["seq"]});
+        let counters = std::sync::Mutex::new((0u64, 0u64, 0u64));
+        let st = x3::explore(
+            &cfg,
+            &scenario,
+            bound,
+            Some(deadline),
+            &|rec| {
+                let o = &rec["obs"];
+                let mut c = counters.lock().unwrap();
+                c.0 += o["stops"].as_u64().unwrap_or(0);
+                c.1 += o["resumes_while_parked"].as_u64().unwrap_or(0);
+                c.2 += o["step_checks"].as_u64().unwrap_or(0);
+                judge(&reference, script, rec)
+            },
+            &|rec| format!("stops={} reasons={} finished={}", rec["obs"]["stops"], rec["obs"]["stop_reasons"], rec["obs"]["finished"]),
+            &|rec, _| {
+                if rec["abort"]["kind"] == "deadlock" {
+                    vec![Violation {
+                        signature: format!("C17/deadlock/{}", script_class(script)),
+                        what: format!("script {:?}: no thread can make progress: {}", script, rec["abort"]["detail"]),
+                        case: json!({"clause": "deadlock"}),
+                    }]
+                } else {
+                    Vec::new()
+                }
+            },
+        );
+        let c = counters.into_inner().unwrap();
+        (st, c)
+    });
+    for (script, r) in all.iter().zip(results) {
+        let Some((st, c)) = r else {
+            exhaustive = false;
+            scripts_capped += 1;
+            continue;
+        };
+        let st = st.map_err(Machinery)?;
+        let cfg1 = pool(1, None);
+        for v in &st.violations {
+            let sc = &v.case["scenario"];
+            let r1 = x3::exec_once(&cfg1, sc).map_err(Machinery)?;
+            let r2 = x3::exec_once(&cfg1, sc).map_err(Machinery)?;
+            if r1["trace_hash"] != r2["trace_hash"] || r1["obs"] != r2["obs"] {
+                return machinery(format!("schedule replay is not deterministic for {}", v.signature));
+            }
+            rep.violation(v.clone());
+        }
+        total_sched += st.schedules;
+        total_steps += st.total_steps;
+        stops_total += c.0;
+        resumes += c.1;
+        step_checks += c.2;
+        for k in st.outcomes.keys() {
+            outcomes.insert(k.clone());
+        }
+        if st.capped || st.completed_bound != Some(bound) {
+            exhaustive = false;
+            scripts_capped += 1;
+        } else {
+            scripts_done += 1;
+        }
+        if st.horizon_hits > 0 {
+            rep.cap(format!("script {:?}: {} executions hit the step horizon", script, st.horizon_hits));
+        }
+        if rep.samples.len() < 4 && script.len() >= 3 {
+            if let Some(s) = st.samples.first() {
+                rep.sample(json!({"script": script, "execution": s}));
+            }
+        }
+    }
+    if scripts_capped > 0 {
+        rep.cap(format!("{scripts_capped} of {} scripts not fully explored to bound {bound} within the wall budget", all.len()));
+    }
+    if total_sched < 100 || stops_total == 0 || resumes == 0 || step_checks == 0 {
+        return machinery(format!(
+            "vacuous exploration: {total_sched} schedules, {stops_total} stops, {resumes} resumes while stopped, {step_checks} step checks"
+        ));
+    }
+    rep.set("states", total_steps);
+    rep.set("transitions", total_steps);
+    rep.set("traces_validated_against_impl", total_sched);
+    rep.set("schedules", total_sched);
+    rep.set("scripts", all.len() as u64);
+    rep.set("scripts_fully_explored", scripts_done);
+    rep.set("deviation_bound", bound as u64);
+    rep.set("stops_observed", stops_total);
+    rep.set("resumes_while_stopped", resumes);
+    rep.set("step_depth_or_order_checks", step_checks);
+    rep.set("distinct_outcomes", outcomes.len() as u64);
+    rep.set("reference_statement_sequence_length", reference["seq"].as_array().map(|a| a.len()).unwrap_or(0) as u64);
+    rep.set("exhaustive", exhaustive);
+    rep.set("explanation", "states/transitions = scheduling points executed over all schedules (stateless exploration of the real DebugControl + Runtime; no state merging); traces_validated_against_impl = complete schedules whose observations were compared with the undebugged reference run");
+    rep.assume("interleavings at Mutex/Condvar operation granularity (every statement hook, controller call and event push), sequentially consistent, no spurious wake-ups; deviation-bounded");
+    rep.assume("scripts contain no writes; one program (nested functions, loop, FB, one task + one background program), two cycles");
+    Ok(rep)
+}
+
+pub fn check_case(case: &Value) -> Vec<Violation> {
+    let sc = &case["scenario"];
+    let script: Vec<String> = sc["script"].as_array().map(|a| a.iter().map(|s| s.as_str().unwrap_or("").to_string()).collect()).unwrap_or_default();
+    let Ok(reference) = reference() else { return Vec::new() };
+    let cfg = pool(1, None);
+    let Ok(rec) = x3::exec_once(&cfg, sc) else { return Vec::new() };
+    if rec["abort"].is_null() {
+        judge(&reference, &script, &rec)
+    } else if rec["abort"]["kind"] == "deadlock" {
+        vec![Violation {
+            signature: format!("C17/deadlock/{}", script_class(&script)),
+            what: format!("no thread can make progress: {}", rec["abort"]["detail"]),
+            case: case.clone(),
+        }]
+    } else {
+        Vec::new()
+    }
 }
 
 pub fn workers() -> Vec<(&'static str, WorkerFn)> {
-    Vec::new()
+    vec![("c17_exec", worker_exec as iso::WorkerFn)]
 }
